@@ -700,6 +700,8 @@ class Normaliser:
         """-> list of statements replacing s"""
         if not isinstance(s, dict):
             return [s]
+        if self._orig.get(id(fn)) and any(n.get("k") == "Lambda" for n in self._orig[id(fn)]):
+            s = self._subst_closure_calls(fn, s)
         k = s.get("k")
         if k == "For":
             pl = self._pointer_loop(fn, s)
@@ -965,6 +967,23 @@ class Normaliser:
             return [self._mk("Decl", line, vars=[tmp]),
                     self._mk("Assign", line, op="=", lhs=self._clone(a), rhs=self._clone(b), t=ta),
                     self._mk("Assign", line, op="=", lhs=self._clone(b), rhs=self._ref(tmp, line), t=ta)]
+        if k == "MCall" and e.get("n") == "assign" and len(args) == 2 and (e.get("ccls") or "").startswith("std::vector") and (e.get("pn") or [])[:2] == ["__first", "__last"]:
+            # v.assign(first, last)  ==  v.clear(); for(x in [first,last)) v.push_back(x)
+            dst = ("push", e.get("obj"), None, e.get("ccls"))
+            src = self._pos(fn, args[0])
+            if src is None:
+                return None
+            cls = e.get("ccls")
+            clr = self._mk("MCall", line, n="clear", callee="%s::clear" % cls, cfull="%s::clear" % cls, ccls=cls, pn=[], pt=[], obj=self._clone(e.get("obj")), a=[], t=None)
+            if src[0] == "adj":
+                lp = self._iter_loop(fn, line, args[0], args[1], lambda it: [self._push(fn, dst, self._mk("Un", line, op="*", e=self._ref(it, line), t=T), line)])
+            else:
+                cnt = self._count(fn, args[0], args[1], line, T)
+                lp = self._index_loop(fn, line, cnt, lambda var: [self._push(fn, dst, self._elem(fn, src, self._ref(var, line), line, T), line)]) if cnt is not None else None
+            if lp is None:
+                return None
+            self.note(fn, "range assign at line %s read as clear() + the push_back loop it stands for" % line)
+            return [clr, lp]
         if k == "MCall" and e.get("n") == "insert" and len(args) == 3 and (e.get("ccls") or "").startswith("std::vector"):
             # v.insert(v.end(), first, last)  ==  for(x in [first,last)) v.push_back(x)
             p0 = self._pos(fn, args[0])
@@ -996,7 +1015,7 @@ class Normaliser:
                         self._bydecl.setdefault((id(f.facts), f.d["decl"]), f)
         return self._bydecl.get((id(fn.facts), op_decl))
 
-    def _value_function(self, fn, n):
+    def _value_function(self, fn, n, any_arity=False):
         """the function behind a unary operation argument (a lambda expression, possibly through a never re-assigned local) if its body is exactly `return E;`"""
         n = strip(n)
         for _ in range(4):
@@ -1014,12 +1033,50 @@ class Normaliser:
         if n is None or n.get("k") != "Lambda" or (n.get("captures") or []):
             return None
         f = self._closure_fn(fn, n.get("op_decl"))
-        if f is None or f.body is None or len(f.params) != 1:
+        if f is None or f.body is None or (len(f.params) != 1 and not any_arity):
             return None
         stmts = [x for x in f.body.get("s", []) if x.get("k") != "Decl" or x.get("vars")]
         if len(stmts) != 1 or stmts[0].get("k") != "Return" or stmts[0].get("e") is None:
             return None
         return f
+
+    def _subst_closure_calls(self, fn, node):
+        """calls `c(a, b)` of a captureless lambda written in fn whose body is `return E;`, inside an expression: replaced by E with the parameters replaced by the
+        (pure) arguments - the comparison handed to a helper template as a callable"""
+        if not isinstance(node, dict):
+            return node
+        for key, val in list(node.items()):
+            if key in ("body", "then", "else") and isinstance(val, dict) and val.get("k") in ("Block", "If", "For", "While", "Do", "ForRange", "Switch"):
+                continue          # nested statements are visited on their own
+            if isinstance(val, dict) and "k" in val:
+                node[key] = self._subst_closure_calls(fn, val)
+            elif isinstance(val, list):
+                node[key] = [self._subst_closure_calls(fn, x) if isinstance(x, dict) and "k" in x else x for x in val]
+        if node.get("k") == "OpCall" and node.get("op") == "()" and node.get("ccls") == "<lambda>" and node.get("a"):
+            lam = [n for n in self._orig.get(id(fn), []) if n.get("k") == "Lambda" and n.get("op_decl") is not None and n.get("op_decl") == node.get("cdecl")]
+            if len(lam) == 1 and not (lam[0].get("captures") or []):
+                f = self._value_function(fn, lam[0], any_arity=True)
+                args = node["a"][1:]
+                if f is not None and len(f.params) == len(args) and all(self._pure(a) for a in args):
+                    cross = f.facts is not fn.facts
+                    ret = [x for x in f.body["s"] if x.get("k") == "Return"][0]["e"]
+                    e = self._clone(ret, None, (lambda t: self._tid(fn, f.type(t))) if cross else None)
+                    pmap = {p_["d"]: a for p_, a in zip(f.params, args)}
+
+                    def rep(n):
+                        if not isinstance(n, dict):
+                            return n
+                        if n.get("k") == "Ref" and n.get("d") in pmap:
+                            return self._clone(pmap[n["d"]])
+                        for k2, v2 in list(n.items()):
+                            if isinstance(v2, dict) and "k" in v2:
+                                n[k2] = rep(v2)
+                            elif isinstance(v2, list):
+                                n[k2] = [rep(x) if isinstance(x, dict) and "k" in x else x for x in v2]
+                        return n
+                    self.note(fn, "call of a comparison lambda at line %s replaced by its expression" % node.get("l"))
+                    return rep(e)
+        return node
 
     def _subst_param(self, f, arg, fn):
         """clone of the returned expression of a `return E;` function with its single parameter replaced by arg"""
@@ -1331,6 +1388,41 @@ class Normaliser:
                 if br is not None and br.get("k") == "Block":
                     self._else_of_return_list(br["s"])
 
+    def _class_assign(self, lhs, rhs, line, t):
+        return self._mk("OpCall", line, op="=", callee="operator=", cfull="operator=", pn=["__x"], pt=[t], a=[lhs, rhs], t=t)
+
+    def _value_body(self, fn, hcall, depth, make):
+        """statements of the value helper called by hcall with parameters bound and make(returned expression) in place of every return (all returns must be in
+        tail position once early returns are read as if/else); None if the helper does not fit"""
+        callee = self._callee_of(fn, hcall, depth, any_returns=True)
+        if callee is None or (callee.type(callee.d.get("ret")) or "").strip() == "void":
+            return None
+        self.apply(callee, depth + 1)
+        hc = strip(hcall)
+        if hc.get("k") == "OpCall":
+            return None
+        line = hc.get("l")
+        cross = callee.facts is not fn.facts
+        tmap = (lambda t: self._tid(fn, callee.type(t))) if cross else None
+        caller_names = {v.get("n") for v in fn.nodes() if v.get("k") == "Var"} | {p["n"] for p in fn.params}
+        dmap = {}
+        for v in list(callee.params) + [x for x in walk(callee.body) if x.get("k") == "Var"]:
+            dmap[v["d"]] = (_fresh_decl(), (v["n"] + "'") if v["n"] in caller_names else None)
+        body = [self._clone(x, dmap, tmap) for x in callee.body.get("s", [])]
+        self._else_of_return_list(body)
+        if not self._tail_returns(body, make):
+            return None
+        pre = []
+        for p_, a in zip(callee.params, hc.get("a", [])):
+            ty = callee.type(p_.get("t")) or ""
+            nd, nn = dmap[p_["d"]]
+            var = {"k": "Var", "i": self._nid(), "l": line, "n": nn or p_["n"], "d": nd, "t": (tmap(p_.get("t")) if tmap else p_.get("t")), "init": a,
+                   "ref": ty.rstrip().endswith("&"), "const": ty.startswith("const"), "inlined_param": callee.name}
+            pre.append(self._mk("Decl", line, vars=[var]))
+        self.inlined[callee.full] = self.inlined.get(callee.full, 0) + 1
+        self.note(fn, "call of %s() at line %s replaced by its body (its value is taken at every return)" % (callee.name, line))
+        return pre + body
+
     def _continuation_inline(self, fn, e, depth):
         """statement `f(a, helper(x));` (also `obj.f(...)`) whose other operands are pure: the helper's body with every `return r;` replaced by `f(a, r);`
         (the value helper may have several / early returns; all of them must be in tail position once early returns are read as if/else)"""
@@ -1422,6 +1514,19 @@ class Normaliser:
                 e2["i"] = self._nid()
                 out.append(e2)
             return out
+        if k == "OpCall" and e.get("op") == "=" and len(e.get("a", [])) == 2:
+            rhs = strip(e["a"][1])
+            for _ in range(3):
+                if rhs is not None and ((rhs.get("k") in ("Construct", "TempObj") and len(rhs.get("a", [])) == 1) or
+                                        (rhs.get("k") == "Call" and (rhs.get("callee") or "") in ("std::move", "std::forward") and len(rhs.get("a", [])) == 1)):
+                    rhs = strip(rhs["a"][0])
+            if rhs is not None and rhs.get("k") in ("Call", "MCall") and self._pure(e["a"][0]) and self._callee_of(fn, rhs, depth, any_returns=True) is not None:
+                def mk_assign(rexpr):
+                    st = self._clone(e)
+                    st["a"][1] = rexpr
+                    return [st]
+                return self._value_body(fn, rhs, depth, mk_assign)
+            return None
         if k == "Decl" and len(e.get("vars", [])) == 1 and e["vars"][0].get("init") is not None:
             v = e["vars"][0]
             init = strip(v["init"])
@@ -1429,6 +1534,13 @@ class Normaliser:
                 if init is not None and init.get("k") in ("Construct", "TempObj") and len(init.get("a", [])) == 1 and strip(init["a"][0]).get("k") in ("Call", "MCall"):
                     init = strip(init["a"][0])
             callee = self._callee_of(fn, init, depth)
+            if callee is None and not v.get("ref") and init is not None and init.get("k") in ("Call", "MCall") and self._callee_of(fn, init, depth, any_returns=True) is not None:
+                nv = dict(v)
+                nv.pop("init", None)
+                nv["i"] = self._nid()
+                body = self._value_body(fn, init, depth, lambda rexpr: [self._class_assign(self._ref(nv, line), rexpr, line, v.get("t"))])
+                if body is not None:
+                    return [self._mk("Decl", line, vars=[nv])] + body
             if callee is None or v.get("ref"):
                 return None
             out, rexpr = self._splice(fn, init, callee, depth, result=("decl", v))
